@@ -4,18 +4,18 @@
 # usage: tools/confirm_mutant.sh <ID> <A|B>
 set -u
 id=$1; x=$2
-wt=/tmp/mut/$id; out=/tmp/mut-out/$id
+wt=${MUT_WT:-/tmp/mut}/$id; out=${MUT_OUT:-/tmp/mut-out}/$id
 crate=$(head -1 $out/$x.demo.rs | sed -E 's|^// *crate: *([a-z-]+).*|\1|')
 lx=$(echo $x | tr 'A-Z' 'a-z')
 cd $wt || exit 2
 git checkout -q -- . ; rm -f */tests/demo_*.rs
 mkdir -p $crate/tests; cp $out/$x.demo.rs $crate/tests/demo_$lx.rs
 # without the change
-cargo test -p $crate --offline --test demo_$lx >/tmp/mut-out/$id/$x.clean.log 2>&1; clean=$?
+cargo test -p $crate --offline --test demo_$lx >$out/$x.clean.log 2>&1; clean=$?
 git apply $out/$x.patch.diff || { echo "$id $x: patch does not apply"; exit 2; }
-cargo test -p $crate --offline --test demo_$lx >/tmp/mut-out/$id/$x.mut.log 2>&1; mut=$?
+cargo test -p $crate --offline --test demo_$lx >$out/$x.mut.log 2>&1; mut=$?
 rm -f $crate/tests/demo_$lx.rs; rmdir $crate/tests 2>/dev/null
-cargo test --workspace --offline >/tmp/mut-out/$id/$x.suite.log 2>&1; suite=$?
-nfail=$(grep -c "FAILED\|failed" /tmp/mut-out/$id/$x.suite.log)
+cargo test --workspace --offline >$out/$x.suite.log 2>&1; suite=$?
+nfail=$(grep -c "FAILED\|failed" $out/$x.suite.log)
 git checkout -q -- .
 echo "$id $x: demo clean exit=$clean (want 0), demo with change exit=$mut (want !=0), existing suite with change exit=$suite (want 0)"
